@@ -195,4 +195,56 @@ func propC02(j *Job) {
 		cases = append(cases, famZ7(modes, 0)...)
 	}
 	runCases(j, cases, func(spec *xferSpec) func(m *Sim, x *Exec, r *xferResult) { return deliveryFinal(spec, true, monOpts{}) })
+	// reliable streams next to a partially reliable one whose message is lost and abandoned:
+	// whatever else is lost (the FORWARD-TSN, its acknowledgement), the reliable data still gets
+	// through and both sides drain
+	var mixed []xferCase
+	for _, mode := range modes {
+		mtu := uint32(100)
+		il := !mode.A.NoInterleave
+		P := int(maxPayloadSizeForMTU(mtu, il))
+		for _, nf := range []int{1, 5} {
+			// nf = 5: the abandoned message fills the initial congestion window, the reliable
+			// message behind it waits in the pending queue and nothing comes back that could
+			// trigger anything: only the retransmission timer can announce the abandonment, and
+			// it has to keep doing so when the announcement is lost
+			first := 20
+			if nf > 1 {
+				first = nf * P
+			}
+			spec := &xferSpec{
+				A: withBase(mode.A, mtu, 0xFFFFFFFA, 4000), B: withBase(mode.B, mtu, 50, 4000),
+				Streams: []streamSpec{
+					{SID: 1, From: 0, RelType: ReliabilityTypeRexmit, RelVal: 0, Msgs: []msgSpec{{Size: first, PPI: 53}, {Size: 21, PPI: 51}}},
+					{SID: 2, From: 0, Msgs: []msgSpec{{Size: 3*P + 1, PPI: 53}, {Size: 30, PPI: 53}}},
+				},
+				Faults:     faultSet{Drop: true, Late: true},
+				Interleave: true,
+				Kill:       []killRule{{SID: 1, Msg: 0, Frag: -1, N: 1}},
+			}
+			k := 1
+			if j.Thorough() {
+				k = 2
+			}
+			mixed = append(mixed, xferCase{Name: fmt.Sprintf("MX/%s/frags%d", mode.Name, nf), K: k, Spec: spec})
+		}
+	}
+	runCases(j, mixed, func(spec *xferSpec) func(m *Sim, x *Exec, r *xferResult) {
+		return func(m *Sim, x *Exec, r *xferResult) {
+			generalVerdicts(m, x, false)
+			if !r.Connected {
+				m.Failf("connect", "handshake failed without faults: %v %v", m.Err[0], m.Err[1])
+				return
+			}
+			if !r.Drained {
+				m.Failf("stall", "not drained at %v: buffered A=%d B=%d, delivered %s", r.DrainAt, bufAmt(m.As[0]), bufAmt(m.As[1]), deliverySummary(spec, r))
+			}
+			for _, st := range spec.Streams {
+				if st.RelType == ReliabilityTypeReliable {
+					checkDelivery(m, "delivery", st, r.Written[st.SID], r.Read[st.SID], true)
+				}
+			}
+			m.Observe("%s drained=%v", deliverySummary(spec, r), r.Drained)
+		}
+	})
 }
